@@ -1002,20 +1002,38 @@ class state_machine_base : public FrontEnd
     };
 
 
+    // Resets the processing flag if an entry behaviour throws,
+    // so that the state machine does not stay blocked for ever.
+    struct entry_guard
+    {
+        ~entry_guard()
+        {
+            if (!completed)
+            {
+                event_processing = false;
+            }
+        }
+        bool& event_processing;
+        bool completed{false};
+    };
+
     template <class Event, class Fsm>
     void on_entry(Event const& event, Fsm& fsm)
     {
+        entry_guard guard{m_event_processing};
         preprocess_entry(event, fsm);
 
         state_entry_visitor<Event> visitor{self(), event};
         m_history.on_entry(self(), event, visitor);
 
+        guard.completed = true;
         postprocess_entry();
     }
 
     template <class TargetStates, class Event, class Fsm>
     void on_explicit_entry(Event const& event, Fsm& fsm)
     {
+        entry_guard guard{m_event_processing};
         preprocess_entry(event, fsm);
 
         using state_identities =
@@ -1054,6 +1072,7 @@ class state_machine_base : public FrontEnd
             visit<visit_mode::active_non_recursive>(visitor);
         }
 
+        guard.completed = true;
         postprocess_entry();
     }
 
